@@ -503,7 +503,11 @@ private:
                     more_ = false;
                     return;
                 }
-                visitor.string_value(string_view(reinterpret_cast<const char*>(&ch), 1), semantic_tag::none, *this, ec);
+                // A pull cursor keeps a view of the string after this function returns,
+                // so the character must live in the parser, not on the stack.
+                text_buffer_.clear();
+                text_buffer_.push_back(static_cast<char>(ch));
+                visitor.string_value(string_view(text_buffer_.data(), 1), semantic_tag::none, *this, ec);
                 more_ = !cursor_mode_;
                 break;
             }
